@@ -122,7 +122,7 @@ def run_property(prop, tier='quick', fresh=None):
                     '(an anchor was lost or the rule matches vacuously)' % (n, floor))
 
     known, fixed = load_known()
-    out_dir = os.path.join(VERIF, 'out', prop)
+    out_dir = os.path.join(VERIF, 'out', prop if os.path.realpath(engine.repo_dir()) == '/repo' else 'scratch-' + prop)
     os.makedirs(out_dir, exist_ok=True)
     for f in os.listdir(out_dir):
         if f.endswith('.json'):
@@ -212,6 +212,8 @@ def write_evidence(mod, ctx, prop, tier, seed, wall, info, violations, known_hit
         'wall_s': round(wall, 3),
         'violations': len(violations),
     }
-    os.makedirs(os.path.join(VERIF, 'evidence'), exist_ok=True)
-    with open(os.path.join(VERIF, 'evidence', prop + '.json'), 'w') as f:
+    # evidence is only ever written for /repo itself; runs against scratch copies (selftest) go elsewhere
+    evdir = os.path.join(VERIF, 'evidence') if os.path.realpath(engine.repo_dir()) == '/repo' else os.path.join(VERIF, 'out', 'evidence-scratch')
+    os.makedirs(evdir, exist_ok=True)
+    with open(os.path.join(evdir, prop + '.json'), 'w') as f:
         json.dump(ev, f, indent=1, default=str)
